@@ -9,6 +9,7 @@ def Skeleton.pinned : Skeleton where
   bcPublishSelectsSend := true
   bcPublishSelectsEntryCtx := true
   bcReceiveRefusesWhenClosed := true
+  bcReceiveErrorsOnlyClosed := true
   bcReceiveChildCtx := true
   bcReceiveReusesEntry := true
   bcRecvSelectsChan := true
@@ -74,6 +75,8 @@ def Skeleton.pinned : Skeleton where
   reqOneResponsePerBranch := true
   reqCtxCarriesRemoteId := true
   reqLoopExitsOnReadErr := true
+  reqFrameFreshPerIteration := true
+  respFrameFreshPerIteration := true
   lkSplitOnDot := true
   lkEmptyPathRejected := true
   lkWalksAllButLast := true
@@ -103,6 +106,8 @@ def Skeleton.pinned : Skeleton where
   cvUsesConvertibleTo := true
   cvSliceElementwise := true
   cvFallbackError := true
+  pxResultChecksValid := true
+  pxArgsFreshPerInvocation := true
   clArgCountChecked := true
   clCallViaUtilsCall := true
   clLookupUnderLock := true
@@ -140,6 +145,7 @@ def Skeleton.pinned : Skeleton where
   stHandoffGuarded := false
   stDecodeErrBeforeClose := true
   stDecoderExitsOnErr := true
+  stAbortClosesDone := false
   stReadersSelectDone := true
   stEncodeRequestOnly := true
   stEncodeResponseOnly := true
